@@ -20,6 +20,7 @@ Audio recording input and playing output module
 import threading
 import struct
 import array
+import sys
 
 # Audiolazy internal imports
 from ._internals import deprecate
@@ -115,17 +116,28 @@ def chunks(seq, size=None, dfmt="f", byte_order=None, padval=0.):
   chunk = array.array(dfmt, [0] * size)
   idx = 0
 
+  # Native order unless explicitly asked otherwise ("!" means big-endian)
+  swap = byte_order in ("<", ">", "!") and \
+         (byte_order == "<") != (sys.byteorder == "little")
+
+  def tobytes():
+    if swap:
+      swapped = array.array(dfmt, chunk)
+      swapped.byteswap()
+      return swapped.tobytes()
+    return chunk.tobytes()
+
   for el in seq:
     chunk[idx] = el
     idx += 1
     if idx == size:
-      yield chunk.tobytes()
+      yield tobytes()
       idx = 0
 
   if idx != 0:
     for idx in xrange(idx, size):
       chunk[idx] = padval
-    yield chunk.tobytes()
+    yield tobytes()
 
 
 class RecStream(Stream):
